@@ -323,3 +323,15 @@ def run(ctx):
                              (n["callee"], f.name))
     ctx.ok("R11.4", "libc:scan", OV, "%d reachable functions scanned for %d non-reentrant routines" %
            (len(reach), len(NONREENTRANT)))
+
+
+_run_base = run
+
+
+def run(ctx):
+    _run_base(ctx)
+    prog = ctx.prog
+    ctx.rule("R11.5", "threads are isolated in the file system too: every path that reaches open / fopen / the JSON "
+             "serialiser / rename from ovni_thread_init and ovni_attr_flush lies under <procdir>/thread.<tid>/")
+    from rules import round4
+    round4.check_thread_files_private(ctx, "R11.5")
